@@ -142,11 +142,11 @@ CLAIMS = {
        "body executions may finish arbitrarily late after cancellation. TLC checks StartOnlyWhenQuiet (action property), Bounded, NoSelfOverlap, NoneRunningAtReturn exhaustively and "
        "CancelOnPrioritized / EventuallyCompletes under fairness in separate configs, with 6 negative controls (incl. WaitBodyOnCancel = the pinned code). Binding: G - edge covers of the "
        "generation graphs are replayed through verifhook gates on a real manager (one spec action = the segment between two gates); T - free-running seeded runs under -race with bodies "
-       "reacting late to cancellation, ordered by hook calls; both validated by TLC against the spec and by the monitor. The pinned defect (cancelled body not awaited) was found by the "
+       "reacting late to cancellation, ordered by hook calls, plus one saturated scenario (the only slot held by a body that reacts to cancellation 5.5 s late, a second invocation queued in Acquire, a prioritized task lasting 6.5 s: a body that begins more than 5 s into the prioritized task is the driver verdict LateStart, formula MonNoLateStart); both validated by TLC against the spec and by the monitor. The pinned defect (cancelled body not awaited) was found by the "
        "check itself and fixed.",
   design_ref="DESIGN.md 3 (C13), 2.4, 2.5, 7 item 1",
   note="the ctx timeout is modelled as an environment action (Timeout) with a negative control; Acquire queuing and a timeout hitting a queued invocation are modelled (negative control AcquireIgnoresTimeout); caller discipline (Do/Done balance) is checked for fs.Check only; semaphore FIFO abstracted to any waiter; the wait loop's lock-free reads are not compared with the model; walks behind two-armed selects may be "
-       "abandoned after 5 retries (exhaustive reported false); liveness on the implementation side is bounded-wait only (30 s return, 5 s cancel); callers in fs/layer, fs, store not exercised. "
+       "abandoned after 5 retries (exhaustive reported false); liveness on the implementation side is bounded-wait only (30 s return, 5 s cancel); the late-start verdict assumes no goroutine stalls for 5 s between its start decision and the spawn of its body; callers in fs/layer, fs, store not exercised. "
        "Trusted: TLC, the gate scheduler and projection in harness/task.",
   technique="TLA+ spec + TLC exhaustive safety and fair liveness checks with negative controls; gated edge-cover replay into Go; TLC trace validation + property monitor of gated and free-running -race traces"),
  "C01": dict(
